@@ -787,13 +787,14 @@ def ep_gradopt(case, which, what):
     roots = {}
     vec = grid8(rng, (SOL,), -2, 2).astype(dt) + 0.125
     args = mkargs(case, [("theta0" if what in ("ctor", "reset") else "gradient", vec)])
+    kw = {"l2_coeff": 0.5} if (which == "Adam" and cfg.get("l2")) else {}      # the non-default regulariser touches the gradient once more
     if what != "ctor":
-        roots["opt"] = cls(np.zeros(SOL, dtype=dt), lr=0.25)
+        roots["opt"] = cls(np.zeros(SOL, dtype=dt), lr=0.25, **kw)
         roots["opt"].step(np.ones(SOL, dtype=dt))
 
     def call():
         if what == "ctor":
-            roots["opt"] = cls(args[0].value, lr=0.25)
+            roots["opt"] = cls(args[0].value, lr=0.25, **kw)
         elif what == "reset":
             roots["opt"].reset(args[0].value)
         else:
